@@ -68,10 +68,14 @@ func drain(s *packet.Session) int {
 }
 
 // threads starts the given bodies as controlled goroutines and waits for all of them.
+// threadRot rotates the order in which threads() starts its goroutines: the default (deviation free) schedule and
+// the schedules reachable with few deviations depend on that order.
+var threadRot int
+
 func threads(bodies ...func()) {
 	done := make(chan bool, len(bodies))
-	for _, b := range bodies {
-		b := b
+	for i := range bodies {
+		b := bodies[(i+threadRot)%len(bodies)]
 		vsched.Go(func() {
 			b()
 			vsched.Send(done, true)
@@ -94,7 +98,18 @@ func sessionPost(x *concExec) {
 func c09Scenarios() []*concScenario {
 	var list []*concScenario
 	add := func(name string, maxClock int, body func(x *concExec), post func(x *concExec)) {
-		list = append(list, &concScenario{name: name, maxClock: maxClock, body: body, post: post})
+		for rot := 0; rot < 3; rot++ {
+			rot := rot
+			n := name
+			if rot > 0 {
+				n = fmt.Sprintf("%s~%d", name, rot) // the same harness, threads started in rotated order
+			}
+			list = append(list, &concScenario{name: n, maxClock: maxClock, post: post, body: func(x *concExec) {
+				threadRot = rot
+				defer func() { threadRot = 0 }()
+				body(x)
+			}})
+		}
 	}
 	closeSession := func(x *concExec, s *packet.Session) {
 		s.Close()
@@ -354,13 +369,10 @@ func raFrame(mac []byte, src netip.Addr, flags byte, lifetime uint16, options []
 
 func c09Run(c *core.Ctx, args []string) {
 	c.Res.Level = "model_checking"
-	c.Res.Rule = "stateless DFS over every schedule of each harness H1..H9 (2-3 API/packet-loop threads plus the goroutines the code starts itself plus the clock) up to the deviation bound; every execution runs to completion under the controlled scheduler; oracles: no deadlock, no panic, no data race (race detector build, scheduler hand-offs invisible to it), table invariant at the final quiescent point, no goroutine left after Close. distinct = distinct observation vectors"
+	c.Res.Rule = "stateless DFS over every schedule of each harness H1..H9 (2-3 API/packet-loop threads plus the goroutines the code starts itself plus the clock) up to the deviation bound (thorough: each harness also with its threads started in the two rotated orders); every execution runs to completion under the controlled scheduler; oracles: no deadlock, no panic, no data race (race detector build, scheduler hand-offs invisible to it), table invariant at the final quiescent point, no goroutine left after Close. distinct = distinct observation vectors"
 	c.Res.Assumptions = []string{"scheduling points at every lock, channel, spawn, timer and connection write of the instrumented packages; unsynchronised accesses are caught by the race detector on the explored schedules rather than interleaved", "bounded by the deviation (preemption) bound and the clock horizon; at most 3 harness threads"}
 	name := strings.TrimSuffix(c.Job, ".race")
-	bound := 2
-	if c.Thorough() {
-		bound = 3
-	}
+	bound := 2 // both tiers; the thorough tier adds the rotated thread orders of every harness
 	if v, ok := c.Args["bound"]; ok {
 		bound = v
 	}
@@ -379,13 +391,13 @@ func init() {
 		Plan: func(tier string) []core.Job {
 			var names, rnames []string
 			for _, sc := range c09Scenarios() {
+				if strings.Contains(sc.name, "~") && tier != "thorough" {
+					continue
+				}
 				names = append(names, sc.name)
 				rnames = append(rnames, sc.name+".race")
 			}
 			n := 4
-			if tier == "thorough" {
-				n = 8
-			}
 			jobs := concJobs(names, n, false, 1700)
 			jobs = append(jobs, concJobs(rnames, n, true, 1700)...)
 			return jobs
